@@ -137,6 +137,10 @@ def cases(tier, seed):
     # two blocks whose H_0 contain different operator sets (first block: fermion only; second: boson and fermion)
     for pert in ("mixed-ops", "mixed-ops-spin"):
         out.append(dict(kind="matrix", form="two-blocks", pert=pert, order=2, degenerate=True))
+    # the same matrix-valued forms with a ladder (Floquet) operator instead of the boson
+    for form in ("two-blocks", "single-block", "two-blocks-fd"):
+        for pert in ("jc", "rabi", "jc+z", "asym2"):
+            out.append(dict(kind="matrix", form=form, pert=pert, order=2, mode="l"))
     # four internal levels in two blocks of two (operator-valued 2x2 blocks)
     for variant in ("plain", "fd0", "single"):
         out.append(dict(kind="matrix4", variant=variant, order=2))
@@ -343,7 +347,7 @@ def run_matrix(case):
     from pymablock.number_ordered_form import NumberOperator
 
     o = mk()
-    a = o["a"]
+    a = o[case.get("mode", "a")]  # a boson, or a ladder (Floquet) operator
     N = NumberOperator(a)
     R = sympy.Rational
     order = case["order"]
